@@ -227,8 +227,14 @@ def _function_case(case, scratch):
                         rt.take()
                         continue
                     if name == "call":
+                        callee = tfuncs.val
+                        if mode == "nullrunner" and len(op) > 2:
+                            # any chain of caller-side modifiers other than force_local() still goes to the cluster's runner
+                            for mod_ in op[2]:
+                                callee = MODIFIERS[mod_](callee)
+                            labels.add("modifier-chain:%d" % len(op[2]))
                         try:
-                            r = ("ok", tfuncs.val(k))
+                            r = ("ok", callee(k))
                         except Exception as e:
                             r = ("exc", e)
                         runs = [x for x in rt.take() if x[0] == "val"]
@@ -307,6 +313,18 @@ def _function_case(case, scratch):
         env.rm(d)
 
 
+MODIFIERS = {"monitor_progress": lambda f: f.monitor_progress(), "monitor_progress_off": lambda f: f.monitor_progress(False),
+             "ignore_result": lambda f: f.ignore_result(), "ignore_result_off": lambda f: f.ignore_result(False)}
+
+
+def modifier_chain_cases(max_len):
+    import itertools
+    for n in range(1, max_len + 1):
+        for chain in itertools.product(sorted(MODIFIERS), repeat=n):
+            yield {"level": "function", "mode": "nullrunner", "how": "arg", "cache": False, "pre": [], "pre_meta": False,
+                   "ops": [["call", 1, list(chain)], ["call", 2]], "damage": []}
+
+
 def execute(case, scratch):
     if case.get("level") == "function":
         return _function_case(case, scratch)
@@ -357,6 +375,7 @@ def strategy(thorough):
 
     fop = st.one_of(
         st.tuples(st.sampled_from(["call", "call", "call", "forget", "memento", "get_meta"]), st.integers(0, 5)).map(list),
+        st.tuples(st.just("call"), st.integers(0, 5), st.lists(st.sampled_from(sorted(MODIFIERS)), min_size=1, max_size=3)).map(list),
         st.tuples(st.just("put_meta"), st.integers(0, 5), st.booleans()).map(list),
         st.sampled_from([["forget_all"], ["list"]]))
     function_case = st.builds(
@@ -378,6 +397,8 @@ def run_shard(ctx):
                                 nshards=ctx.nshards, deadline_s=dl(0.5))
     stats.extra["exhaustive_sequences"] = stats.evaluations
     stats.extra["small_scope_complete"] = bool(complete)
+    # null runner under every chain of up to 3 (quick: 2) caller-side modifiers
+    core.enum_search(modifier_chain_cases(3 if thorough else 2), ex, stats, findings=ctx.findings, shard=ctx.shard, nshards=ctx.nshards, deadline_s=dl(0.6))
     core.hyp_search(strategy(thorough), ex, stats, max_examples=10000 if thorough else 200,
                     seed=core.hash64(ctx.seed, ID, ctx.shard), findings=ctx.findings, deadline_s=dl(1.0))
     return stats
